@@ -213,17 +213,38 @@ def check_output_option(chk):
     for (src, tgt), dspec in itertools.product(itertools.product(NSS, NSS), ("default", "name64", "native64", "native32")):
         t = smcrun.Target(2)
         dkw = {} if dspec == "default" else {"dtype": "float64" if dspec == "name64" else ns.native_dtype(src, "f64" if dspec == "native64" else "f32")}
-        a = al.make_aspire(t, dims=2, xp_name=src, **dkw)
-        a.fit(al.training_samples(2, 5))
         case = {"level": "sample_posterior(xp=)", "src": src, "tgt": tgt, "dtype": dspec}
         chk.case(None, json.dumps(case))
         chk.count("output_option")
         try:
+            a = al.make_aspire(t, dims=2, xp_name=src, **dkw)
+            a.fit(al.training_samples(2, 5))
             s = a.sample_posterior(n_samples=6, sampler="importance", xp=ns.get_xp(tgt))
             if ns.ns_of(s.x) != tgt or s.log_likelihood is None or s.log_w is None:
                 chk.fail("conversion preserves namespace, values, optional fields and width", case, f"returned {ns.ns_of(s.x)} samples", {"clause": "faithful", "level": "option"})
         except Exception as e:   # noqa
             chk.fail("conversion succeeds for every ordered pair", case, repr(e)[:200], {"clause": "raise", "level": "option", "exc": type(e).__name__, "pair": f"{src}->{tgt}"})
+
+
+def check_precision_reaches_backend(chk):
+    """the requested precision, spelled as a dtype object of the SAMPLE namespace, reaches a real proposal that lives in another
+    namespace (numpy samples + torch flow is the default combination)"""
+    from aspire import Aspire
+
+    t = smcrun.Target(2)
+    for nsn, w in (("numpy", "f64"), ("numpy", "f32"), ("jax", "f64")):
+        case = {"level": "precision->backend", "samples": nsn, "dtype": f"native {w}", "backend": "zuko"}
+        chk.count("precision_reaches_backend")
+        chk.case(case, json.dumps(case))
+        try:
+            a = Aspire(log_likelihood=t.log_likelihood, log_prior=t.log_prior, dims=2, parameters=["p0", "p1"], prior_bounds={"p0": [-10, 10], "p1": [-10, 10]},
+                       flow_backend="zuko", xp=ns.get_xp(nsn), dtype=ns.native_dtype(nsn, w))
+            a.init_flow()
+            got = str(a.flow.dtype)
+            if not got.endswith("float64" if w == "f64" else "float32"):
+                chk.fail("a requested precision is the precision of every population", case, f"the proposal was built with dtype {got}", {"clause": "precision", "level": "backend"})
+        except Exception as e:   # noqa
+            chk.fail("conversion succeeds for every ordered pair", case, repr(e)[:200], {"clause": "raise", "level": "backend", "exc": type(e).__name__})
 
 
 def check_proposal_outputs(chk):
@@ -297,6 +318,7 @@ def run(chk: core.Check):
         check_table(chk, cells[i:i + 800])
     check_sampler_precision(chk, quick)
     check_output_option(chk)
+    check_precision_reaches_backend(chk)
     check_proposal_outputs(chk)
 
     def search():
